@@ -69,7 +69,7 @@ type feRes struct {
 	WaSrc      string
 	LoaderRan  bool
 	LoaderErr  string
-	LoaderItem int // item whose declaration contains the loader's error position, -1 if none
+	LoaderItem int        // item whose declaration contains the loader's error position, -1 if none
 	Ms         [4]float64 // go2wa, parse, check, loader
 }
 
@@ -106,10 +106,10 @@ func handleFE(raw json.RawMessage) interface{} {
 	lap(1)
 	f.Name.Name = "main"
 	type span struct {
-		pos, end   token.Pos
-		l0, l1     int
-		name       *ast.Ident
-		value      ast.Expr
+		pos, end token.Pos
+		l0, l1   int
+		name     *ast.Ident
+		value    ast.Expr
 	}
 	var spans []span
 	for _, d := range f.Decls {
